@@ -21,7 +21,7 @@ def run(res: Result, which: str, tier: str) -> None:
     events = []
     if which == "brace":
         for n in range(0, 8 if tier == "quick" else 10):
-            for t in itertools.product(b"()x", repeat=n):
+            for t in itertools.product(b"()x" if n > 5 else b"()x[{<", repeat=n):
                 data = bytes(t)
                 for start in sorted({0, 1, n // 2, n}):
                     if start > n:
